@@ -201,7 +201,8 @@ CLAIMS = {
    note=COMMON_NOTE + NUM_NOTE + "PARTIAL: floats are outside the theorems - exactly where this property bites: known findings MoneyFlowIndex, "
         "ChandeMomentumOscillator leave their ranges (even +-inf) through rounding residue behind exact == 0 guards (RelativeStrengthIndex and the "
         "TrendStrengthIndex NaN were fixed); documented ranges the formulas do not imply (ChaikinOscillator [-1,1], RelativeVigorIndex [-0.5,0.5], ADX +-DI [0,1]) "
-        "are reported as doc-range findings (DESIGN 7.1). Whole-stream theorems: MFI in [0,1] from its constructor for every stream with non-negative volumes; "
+        "are reported as doc-range findings (DESIGN 7.1). Whole-stream theorems from the constructors (no step panics, bound at every step): Aroon, RSI and Stochastic (every pair of non-overshooting kinds), "
+        "MFI, CMO, CMF, TSI, Bollinger (variance >= 0), Keltner (every configuration), Donchian, LinearVolatility, MeanAbsDev; "
         "TrendStrengthIndex p^2 <= q (Cauchy-Schwarz), i.e. |value| <= 1 wherever defined. "
         "Theorems also for LinearVolatility / MeanAbsDev >= 0, Keltner and Envelopes ordering, the CMF range (|sum CLV*vol| <= sum vol over the same window) and the TSI range (domination of the double smoothing); smoothed Stochastic / SMI signal-line ranges are run-only.",
    ref="DESIGN.md §5 C12"),
